@@ -241,6 +241,20 @@ def nested_same_relpath(b, sym):
                 b.require(truth(e.digest == b.H(e.fmt, f)), "create-digest", "%s %s in history %s" % (rec.path, e.fmt, hr))
     r = b.run("verify", root="R")
     b.require(r.exit == 0, "verify-untouched-exit-0", str(r))
+    if sym.flag("then_rename_and_detect_with_another_format"):
+        import posixpath
+        for f in list(files):
+            if f.endswith("Clips/shot.mov"):
+                b.rename(f, posixpath.join(posixpath.dirname(f), "shot_v2.mov"))
+        other = ["sha1"] if "md5" in fm else ["md5"]
+        r = b.run("create", root="R", h=other, dr=True)
+        b.require(r.exit == 0 and r.exc is None, "create-exit-0", "create -dr -h %s after renaming the same-named files: %s" % (other, r))
+        for hr in ["R"] + layout:
+            m = b.manifests(hr)[-1]
+            for rec in m.files():
+                f = posixpath.join(hr, rec.path)
+                for e in rec.entries:
+                    b.require(truth(e.digest == b.H(e.fmt, f)), "create-digest", "after rename detection: %s %s in history %s" % (rec.path, e.fmt, hr))
 
 
 def _harnesses(tier):
